@@ -380,6 +380,8 @@ def run(ctx):
             break
         evaluate(ctx, batch[k:k + 600])
     classification_support(ctx, ctx.n(3, 4))
+    # report the most telling failures first: outside every known class, then the shortest schedules
+    ctx.failures.sort(key=lambda f: (f["finding_class"] is not None, len(f["input"]["sched"])))
     if ctx.evaluations < 200 or ctx.histogram.get("overlapping", 0) < 0.3 * ctx.evaluations:
         raise common.InfraError("degenerate distribution: %d cases, %d with overlapping lockers" % (
             ctx.evaluations, ctx.histogram.get("overlapping", 0)))
